@@ -72,6 +72,8 @@ def make_instance(rng, nind=1, trios=(), max_reads=6, max_cols=6, quals=QUALS, p
                 v[0] = remap[v[0]]
         ncols = len(covered)
     pm = prior_mode or rng.choice(["uniform", "third", "dyadic", "dyadic", "skew"])
+    if pm == "nice":
+        pm = rng.choice(["uniform", "third", "dyadic"])
     priors = []
     for _ in range(nind):
         row = []
@@ -383,6 +385,7 @@ From mathcomp Require Import ssreflect ssrfun ssrbool eqtype ssrnat div seq.
 From WH.Model Require Import GenotypeHMM GenotypeCall.
 Set Implicit Arguments.
 Unset Strict Implicit.
+Close Scope Q_scope.
 Open Scope nat_scope.
 """
 
@@ -390,15 +393,15 @@ Open Scope nat_scope.
 def qlit(fr):
     fr = Fraction(fr)
     if fr.numerator < 0:
-        return f"(BigQ.of_Q (({fr.numerator})%Z # {fr.denominator}%positive))"
-    return f"(BigQ.of_Q ({fr.numerator}%Z # {fr.denominator}%positive))"
+        return f"(BigQ.of_Q (({fr.numerator})%Z # {fr.denominator}%positive)%Q)"
+    return f"(BigQ.of_Q ({fr.numerator}%Z # {fr.denominator}%positive)%Q)"
 
 
 def qraw(fr):
     fr = Fraction(fr)
     if fr.numerator < 0:
-        return f"(({fr.numerator})%Z # {fr.denominator}%positive)"
-    return f"({fr.numerator}%Z # {fr.denominator}%positive)"
+        return f"(({fr.numerator})%Z # {fr.denominator}%positive)%Q"
+    return f"({fr.numerator}%Z # {fr.denominator}%positive)%Q"
 
 
 def nat_list(xs):
